@@ -73,6 +73,37 @@ func c01Envelope(c *Ctx) {
 		r.AnchorMissing("C01.envelope", "the length-prefix writer (AppendUint32/PutUint32 of len(encryptedDEK)) and reader (Uint32 of the ciphertext head) of the KMS envelope in package aead")
 		return
 	}
+	// the size guard of the serializer may sit in the function that calls the
+	// length-prefix writer: walk up while the DEK is handed down as a parameter
+	serChain := []ssa.Value{serDEK}
+	for depth := 0; depth < 2; depth++ {
+		var up *ssa.Function
+		var upParam ssa.Value
+		n := 0
+		for _, site := range p.Callers(ser) {
+			if site.Common().StaticCallee() != ser {
+				continue
+			}
+			idx := -1
+			for i, q := range ser.Params {
+				if ssa.Value(q) == serDEK {
+					idx = i
+				}
+			}
+			if idx < 0 || idx >= len(site.Common().Args) {
+				continue
+			}
+			if prm, isP := guard.Strip(site.Common().Args[idx]).(*ssa.Parameter); isP && core.IsByteSlice(prm.Type()) {
+				up, upParam = site.Parent(), prm
+				n++
+			}
+		}
+		if n != 1 || up == nil || up.Pkg != ser.Pkg {
+			break
+		}
+		ser, serDEK = up, upParam
+		serChain = append(serChain, upParam)
+	}
 	ev := consteval.New()
 	verdict := func(f *ssa.Function, env consteval.Env) (accepts, ok bool) {
 		for _, prm := range f.Params {
@@ -94,7 +125,11 @@ func c01Envelope(c *Ctx) {
 	bad := ""
 	var table []string
 	for _, L := range []int64{0, 1, 2, 4095, 4096, 4097, 1 << 20} {
-		sAcc, ok1 := verdict(ser, consteval.Env{consteval.LenKey(serDEK): consteval.C(L)})
+		senv := consteval.Env{}
+		for _, v := range serChain {
+			senv[consteval.LenKey(v)] = consteval.C(L)
+		}
+		sAcc, ok1 := verdict(ser, senv)
 		pAcc, ok2 := verdict(par, consteval.Env{ssa.Value(parLen): consteval.Val{K: consteval.Const, C: constant.MakeInt64(L)}, consteval.LenKey(parCT): consteval.C(L + 4 + 64)})
 		if !ok1 || !ok2 {
 			r.Unknown("C01.envelope", "C01.envelope/DEK length window", p.FuncPos(par), "cannot fold the size guards of the envelope serializer/parser")
